@@ -213,3 +213,29 @@ Proof.
   repeat split; try (vm_compute; reflexivity); try discriminate.
   intros s [H|[]]. unfold slash in H. lia.
 Qed.
+
+(* add_rule made by a sink from inside its own startTestRun while the run is being opened (the loop of
+   StreamResultRouter.startTestRun walks the LIVE _sinks list, start_reentrant): the calls deliver nothing themselves
+   and the startTestRun delivers exactly what a startTestRun issued after them delivers - every registered sink,
+   old and new, started once.  This is the shape in which the correspondence observes such histories. *)
+Theorem C18_reentrant_start : forall r k adds,
+  r_in_run r = false -> k < length (r_sinks r) -> forallb is_add adds = true ->
+  Forall (fun out => out = (false, [])) (run r adds)
+  /\ start_reentrant r k adds = step (apply_adds r adds) Start.
+Proof. exact reentrant_start_is_adds_then_start. Qed.
+Print Assumptions C18_reentrant_start.
+
+Theorem C18_reentrant_start_once : forall r k adds s,
+  r_in_run r = false -> k < length (r_sinks r) -> forallb is_add adds = true ->
+  count_occ Nat.eq_dec (map fst (snd (snd (start_reentrant r k adds)))) s
+  = count_occ Nat.eq_dec (r_sinks (apply_adds r adds)) s.
+Proof. exact reentrant_start_once. Qed.
+Print Assumptions C18_reentrant_start_once.
+
+(* non-vacuity: the fallback (sink 0, registered) installs two rules when it is started; sink 1 asks for start/stop *)
+Example C18_reentrant_example :
+  let r := init (Some 0) true in
+  let adds := [AddPrefix 1 0 true true; AddId 2 (Some 0) false] in
+  r_in_run r = false /\ 0 < length (r_sinks r) /\ forallb is_add adds = true
+  /\ snd (snd (start_reentrant r 0 adds)) = [(0, StartRun); (1, StartRun)].
+Proof. vm_compute. repeat split; auto. Qed.
